@@ -46,7 +46,7 @@ fn main() {
         for line in text.lines() {
             if let Some(rest) = line.strip_prefix("n ") {
                 if let Some(sdh) = rest.strip_prefix("reset ") {
-                    node = Some(node::NodeExec::new(sdh == "1", tables.clone()));
+                    node = Some(node::NodeExec::with_variant(sdh.starts_with('1'), sdh.as_bytes().get(1).copied().unwrap_or(b' '), tables.clone()));
                     println!("ok");
                 } else {
                     let n = node.get_or_insert_with(|| node::NodeExec::new(true, tables.clone()));
